@@ -549,10 +549,10 @@ pub fn run(ctx: &mut Ctx) {
     );
 
     let n_types = TYPES.len() as u64;
-    let typed = ctx.pick(n_types * 2_000, n_types * 200_000);
+    let typed = ctx.pick(n_types * 8_000, n_types * 200_000);
     ctx.prop("typed", typed, any_case, |c: &AnyCase| c.visit(TypedCheck));
 
-    let cross = ctx.pick(150_000, 10_000_000);
+    let cross = ctx.pick(600_000, 15_000_000);
     ctx.prop(
         "cross",
         cross,
@@ -563,7 +563,7 @@ pub fn run(ctx: &mut Ctx) {
         check_cross,
     );
 
-    let near = ctx.pick(300_000, 20_000_000);
+    let near = ctx.pick(1_200_000, 30_000_000);
     ctx.prop(
         "near",
         near,
@@ -574,7 +574,7 @@ pub fn run(ctx: &mut Ctx) {
         check_near,
     );
 
-    let arb = ctx.pick(20_000, 1_000_000);
+    let arb = ctx.pick(80_000, 2_000_000);
     ctx.prop(
         "arb",
         arb,
